@@ -1431,7 +1431,10 @@ class AttrParser(BaseParser):
             literal_span = StringLiteral(
                 token.span.start + 1, token.span.end, token.span.input
             )
-            return StringAttr(literal_span.string_contents)
+            try:
+                return StringAttr(literal_span.string_contents)
+            except UnicodeDecodeError:
+                self.raise_error("Symbol name is not valid UTF-8", token.span)
         return StringAttr(token.text[1:])
 
     def parse_symbol_name(self) -> StringAttr:
